@@ -534,6 +534,16 @@ fn run_long(a: &Args) {
 // ---------------------------------------------------------------------------------------------
 // the signal adaptor (std build only)
 
+/// a source whose `is_exhausted()` report is independent of what it yields
+#[cfg(not(feature = "nostd"))]
+struct Reporting<F> { frames: Vec<F>, pos: usize, report_from: usize }
+#[cfg(not(feature = "nostd"))]
+impl<F: Frame> dasp_signal::Signal for Reporting<F> {
+    type Frame = F;
+    fn next(&mut self) -> F { let f = if self.pos < self.frames.len() { self.frames[self.pos] } else { F::EQUILIBRIUM }; self.pos += 1; f }
+    fn is_exhausted(&self) -> bool { self.pos >= self.report_from }
+}
+
 #[cfg(not(feature = "nostd"))]
 fn sig_case<F>(st: &mut Stream, n: usize, frames: &[Vec<u64>], k: usize, squared: bool)
 where
@@ -562,11 +572,22 @@ where
         // the detector fed directly
         let mut d: Rms<F, Vec<F::Float>> = Rms::new(ring());
         let direct: Vec<String> = (0..k).map(|i| { let f = if i < fs.len() { fs[i] } else { F::EQUILIBRIUM }; frame_tok(if squared { d.next_squared(f) } else { d.next(f) }) }).collect();
-        (outs, outs2, direct, pulls)
+        // source 3: a source that reports `is_exhausted()` from frame `rep` on while it keeps yielding the frames
+        // ("contagious" exhaustion: finite.add_amp(infinite), finite.offset_amp(dc), finite.map(f)), then the hand-over:
+        // into_parts() gives back the source right after the k frames pulled and the detector in the state reached
+        let rep = (k * 7 + n) % (fs.len() + 2);
+        let mut s3 = Reporting { frames: fs.clone(), pos: 0, report_from: rep }.rms(ring());
+        let mut outs3: Vec<String> = (0..k).map(|_| frame_tok(if squared { s3.next_squared() } else { s3.next() })).collect();
+        let (mut src3, mut det3) = s3.into_parts();
+        let pos3 = src3.pos;
+        for j in 0..2 { let f = src3.next(); outs3.push(frame_tok(det3.next(f))); let g = if k + j < fs.len() { fs[k + j] } else { F::EQUILIBRIUM }; outs3.push(frame_tok(d.next(g))); }
+        (outs, outs2, direct, pulls, outs3, pos3)
     });
     match res {
         None => { st.case(&req, "panic", true, k as u64); st.oracle_fail("rms adaptor panicked", &req, "no panic", "panic"); }
-        Some((outs, outs2, direct, pulls)) => {
+        Some((outs, outs2, direct, pulls, outs3, pos3)) => {
+            let tail_ok = outs3[k..].chunks(2).all(|c| c[0] == c[1]);
+            if outs3[..k] != direct[..] || !tail_ok || pos3 != k { st.oracle_fail("signal.rms(ring) over a source that reports exhaustion while still yielding frames, then into_parts(): outputs / handed-back detector / source position differ from the detector fed the same frames", &req, &format!("{} pos {}", direct.join(" "), k), &format!("{} pos {}", outs3.join(" "), pos3)); } else { st.oracle_ok(k as u64 + 3); }
             let mut obs = outs.clone(); obs.push(format!("p{}", pulls));
             st.case(&req, &obs.join(" "), k > n, (k * ch) as u64);
             if outs != direct || outs2 != direct { st.oracle_fail("signal.rms(ring) output differs from the detector fed the same frames", &req, &direct.join(" "), &outs.join(" ")); } else { st.oracle_ok(2 * k as u64); }
